@@ -458,6 +458,143 @@ def r5b(repo, run):
         run.ok('C12.R5', fi, 're-targeting of relative jumps evaluated for 6 jump opcodes (%d rows)' % rows, 'backward jumps subtract their operand, all others add it')
 
 
+def _start_variants(repo, fi, loop):
+    """(start value, unit, loop statement): the patcher as it is (the instruction loop starts at 0) and, when the loop is a `while`
+    over a counter initialised by a plain `<name> = 0` in the same body, a copy whose counter starts at 4 (so that expressions
+    that are only right at position 0 show)"""
+    import copy
+    from ..srcmodel import FuncInfo
+    out = [(0, fi, loop)]
+    if isinstance(loop, ast.While):
+        names = {n.id for n in ast.walk(loop.test) if isinstance(n, ast.Name)}
+        body = fi.node.body
+        k = body.index(loop) if loop in body else -1
+        for j in range(k - 1, -1, -1):
+            st = body[j]
+            if isinstance(st, ast.Assign) and len(st.targets) == 1 and isinstance(st.targets[0], ast.Name) and st.targets[0].id in names \
+                    and isinstance(st.value, ast.Constant) and st.value.value == 0 and type(st.value.value) is int:
+                node2 = copy.deepcopy(fi.node)
+                node2.body[j].value = ast.copy_location(ast.Constant(value=4), node2.body[j].value)
+                out.append((4, FuncInfo(node2, fi.module, fi.cls), node2.body[k]))
+                break
+    return out
+
+
+def r5c(repo, run):
+    """layout of the instruction loop, read off one interpreted iteration (positions are concrete: the loop counter starts at a
+    known value S): the opcode is the byte at S and its operand the byte at S+1; what is copied from the old code are whole 2-byte
+    units (or the opcode byte alone, completed by a 1-byte operand) that tile [S, counter after the iteration) without gap or overlap,
+    so the counter advances by 2 per consumed unit; the instruction's new position is recorded under its unit index S/2;
+    operands are single bytes (to_bytes(1, ..)); nothing is assumed about inline cache bytes other than that they are zero; and a
+    redirected load is reported to the caller (the rewritten code is otherwise thrown away)"""
+    fi = repo.func('EvalNode._patch_access_to_globals')
+    loop = _decode_loop(fi, repo)
+    bad = set()
+    rows = 0
+    redirects = 0
+    for S, unit, lp in _start_variants(repo, fi, loop):
+        paths = Tracer(repo, follow_exceptions=False, max_paths=20000).trace(unit, upto=lp)
+        ctr = None
+        if isinstance(lp, ast.While):
+            nm = [n.id for n in ast.walk(lp.test) if isinstance(n, ast.Name)]
+            ctr = [n for n in nm if any(n in p.env for p in paths)]
+        for p in paths:
+            if p.status != 'cut':
+                continue
+
+            def ev(node):
+                try:
+                    return tr._ev_const(node, {})
+                except tr._Unknown:
+                    return None
+            reads, units = [], []
+            for e in p.events:
+                if e.kind != 'subscr' or not (e.callee or '').endswith('co_code'):
+                    continue
+                sl = e.value.ast
+                if isinstance(sl, ast.Slice):
+                    a, b = ev(sl.lower) if sl.lower is not None else 0, ev(sl.upper) if sl.upper is not None else None
+                    if a is None or b is None or sl.step is not None:
+                        raise AnalysisError('_patch_access_to_globals: slice co_code[%s] not evaluable' % e.value.text)
+                    units.append((a, b, e))
+                else:
+                    r = ev(sl)
+                    if r is None:
+                        raise AnalysisError('_patch_access_to_globals: index co_code[%s] not evaluable' % e.value.text)
+                    reads.append((r, e))
+            if not reads and not units:
+                continue
+            rows += 1
+            starts = []
+            for a, b, e in units:
+                if (a - S) % 2 or a < S or b - a not in (1, 2) or (b - a == 1 and a != S):
+                    bad.add('with the loop counter at %d the bytes [%d:%d] of the old code are copied: not a whole 2-byte instruction unit of this iteration (or its opcode byte)' % (S, a, b))
+                starts.append(a)
+            if len(set(starts)) != len(starts):
+                bad.add('with the loop counter at %d the unit at %d is copied twice in one iteration (redirected and copied unchanged)' % (S, sorted(x for x in starts if starts.count(x) > 1)[0]))
+            elif starts and sorted(starts) != list(range(S, S + 2 * len(starts), 2)):
+                bad.add('with the loop counter at %d the copied units start at %s: they do not tile the old code from %d on' % (S, sorted(starts), S))
+            for r, e in reads:
+                if r == S or r == S + 1 or r in starts or (r - S) % 2 == 0 and S < r <= S + 2 * len(starts):
+                    continue
+                bad.add('with the loop counter at %d (opcode at %d, operand at %d) the byte at %d is read (%s)' % (S, S, S + 1, r, e.result.text[:40] if e.result is not None else '?'))
+            opreads = [r for r, e in reads if any(x.kind == 'subscr' and x.callee == 'dis.opname' and e.result is not None and x.value.text == e.result.text for x in p.events)]
+            if opreads and set(opreads) != {S}:
+                bad.add('with the loop counter at %d the opcode is taken from the byte at %s' % (S, sorted(set(opreads))))
+            names = [x for x in p.events if x.kind == 'subscr' and (x.callee or '').endswith('co_names')]
+            for x in names:
+                src = [n for n in ast.walk(x.value.ast) if isinstance(n, ast.Subscript) and norm(n.value).endswith('co_code')]
+                for n in src:
+                    k_ = ev(n.slice)
+                    if k_ is not None and k_ != S + 1:
+                        bad.add('with the loop counter at %d the name index is decoded from the byte at %d; the operand of the instruction at %d is the byte at %d' % (S, k_, S, S + 1))
+            if ctr:
+                endv = p.env.get(ctr[0])
+                end = ev(endv.ast) if endv is not None else None
+                if end is None:
+                    raise AnalysisError('_patch_access_to_globals: loop counter after one iteration not evaluable')
+                if end != S + 2 * len(starts):
+                    bad.add('one iteration starting at %d consumes %d unit(s) of 2 bytes but leaves the counter at %d (expected %d): the next opcode is read from the middle of an instruction' % (S, len(starts), end, S + 2 * len(starts)))
+            for e in p.events:
+                if e.kind == 'call' and e.attr == 'to_bytes':
+                    n_ = ev(e.args[0].ast) if e.args else (ev(e.kw['length'].ast) if 'length' in e.kw else 1)
+                    if n_ != 1 or type(n_) is not int:
+                        bad.add('an operand / opcode is encoded with to_bytes(%s): every half of a code unit is exactly one byte' % ', '.join(a.text for a in e.args))
+                if e.kind == 'store' and e.value is not None and e.value.text.startswith('len(') and e.target and e.target.endswith(']'):
+                    try:
+                        t = ast.parse(e.target, mode='eval').body
+                    except SyntaxError:
+                        continue
+                    if isinstance(t, ast.Subscript):
+                        k_ = ev(t.slice)
+                        if k_ is not None and k_ != S // 2:
+                            bad.add('the new position of the instruction at byte %d is recorded under key %r, expected its unit index %d (jumps are re-targeted through this map)' % (S, k_, S // 2))
+            for t, pol in p.facts:
+                try:
+                    f_ = ast.parse(t, mode='eval').body
+                except SyntaxError:
+                    continue
+                if isinstance(f_, ast.Compare) and len(f_.ops) == 1 and isinstance(f_.left, ast.Subscript) and norm(f_.left.value).endswith('co_code') and not isinstance(f_.left.slice, ast.Slice):
+                    k_, c_ = ev(f_.left.slice), ev(f_.comparators[0])
+                    if k_ is not None and k_ in starts and k_ > S and c_ is not None:
+                        holds_for_zero = (isinstance(f_.ops[0], ast.Eq) and c_ == 0) or (isinstance(f_.ops[0], ast.NotEq) and c_ != 0)
+                        if holds_for_zero != pol:
+                            bad.add('the copy of an inline cache entry (byte %d) goes on only if %s is %s: cache entries of compiled code are zero' % (k_, t, pol))
+            if any(x[0] == 'LOAD_ATTR' for x in _emissions(p)):
+                redirects += 1
+                flags = [v for k, v in p.env.items() if v.const is True or v.const is False]
+                rep_ = p.env.get('done_something')
+                if rep_ is not None and rep_.const is not True:
+                    bad.add('a redirected name load leaves done_something = %s: the caller is told nothing was patched and keeps the original code' % rep_.text)
+    if rows < 4 or redirects < 2:
+        raise AnalysisError('_patch_access_to_globals: instruction loop not interpreted (%d iterations paths, %d redirecting)' % (rows, redirects))
+    if bad:
+        for m in sorted(bad)[:3]:
+            run.violation('C12.R5', fi, 'instruction layout of the rewriting loop', m)
+    else:
+        run.ok('C12.R5', fi, 'instruction layout: %d iteration paths (%d redirecting) from start positions 0 and 4' % (rows, redirects), 'opcode at S, operand at S+1, whole units tiled, counter += 2 per unit, unit index keys, 1-byte halves')
+
+
 def r6(repo, run):
     loop = _decode_loop(repo.func('EvalNode._patch_access_to_globals'), repo)
     fi, paths = _patcher_paths(repo, loop)
@@ -609,6 +746,7 @@ def check(repo, run, tier):
     g(r4, repo, run)
     g(r5, repo, run)
     g(r5b, repo, run)
+    g(r5c, repo, run)
     g(r6, repo, run)
     g(unitrules.config_entry, repo, run, 'C12.R9')
     g(unitrules.eval_context_init, repo, run, 'C12.R1')
@@ -621,6 +759,16 @@ def check(repo, run, tier):
 
 def mutants(repo):
     return [
+        Mutant('operand-read-before-opcode', lambda r: in_func(r, 'EvalNode._patch_access_to_globals', "arg = code.co_code[i+1]", "arg = code.co_code[i-1]"), ['C12.R5']),
+        Mutant('loop-stride-three', lambda r: in_func(r, 'EvalNode._patch_access_to_globals', "                new_bytecode.append(code.co_code[i:i+2])\n\n            i += 2", "                new_bytecode.append(code.co_code[i:i+2])\n\n            i += 3"), ['C12.R5']),
+        Mutant('cache-stride-three', lambda r: in_func(r, 'EvalNode._patch_access_to_globals', "                            new_bytecode.append(code.co_code[i+2:i+4])\n                            i += 2", "                            new_bytecode.append(code.co_code[i+2:i+4])\n                            i += 3"), ['C12.R5']),
+        Mutant('cache-copied-from-behind', lambda r: in_func(r, 'EvalNode._patch_access_to_globals', "new_bytecode.append(code.co_code[i+2:i+4])", "new_bytecode.append(code.co_code[i-2:i+4])"), ['C12.R5']),
+        Mutant('cache-bytes-asserted-nonzero', lambda r: in_func(r, 'EvalNode._patch_access_to_globals', "assert code.co_code[i+2] == 0", "assert code.co_code[i+2] != 0"), ['C12.R5']),
+        Mutant('redirected-unit-also-copied', lambda r: in_func(r, 'EvalNode._patch_access_to_globals', "                    done = True\n", "                    done = False\n"), ['C12.R5']),
+        Mutant('patched-code-not-reported', lambda r: in_func(r, 'EvalNode._patch_access_to_globals', "                    done_something = True\n                    done = True", "                    done_something = False\n                    done = True"), ['C12.R5']),
+        Mutant('loop-starts-at-one', lambda r: in_func(r, 'EvalNode._patch_access_to_globals', "        i = 0\n        while", "        i = 1\n        while"), ['C12.R5']),
+        Mutant('to-bytes-arguments-swapped', lambda r: in_func(r, 'EvalNode._patch_access_to_globals', "new_arg.to_bytes(1, 'little')", "new_arg.to_bytes('little', 1)"), ['C12.R5']),
+        Mutant('location-key-in-thirds', lambda r: in_func(r, 'EvalNode._patch_access_to_globals', "                location_map[i//2] = len(new_bytecode)\n                new_bytecode.append(code.co_code[i:i+2])", "                location_map[i//3] = len(new_bytecode)\n                new_bytecode.append(code.co_code[i:i+2])"), ['C12.R5']),
         Mutant('namespace-reuse-condition', lambda r: in_func(r, 'EvalNode.ayns.on_evaluate_impl', "if self.persistent_namespace and eval_module_name in sys.modules:", "if self.persistent_namespace or eval_module_name in sys.modules:"), ['C12.R1b']),
         Mutant('backward-jumps-go-forward', lambda r: in_func(r, 'EvalNode._patch_access_to_globals', "            if is_backward:\n                old_loc_abs = old_jump_loc - old_loc_rel", "            if not is_backward:\n                old_loc_abs = old_jump_loc - old_loc_rel"), ['C12.R5']),
         Mutant('backward-flag-never-set', lambda r: in_func(r, 'EvalNode._patch_access_to_globals', "                is_backward = True\n", "                is_backward = False\n"), ['C12.R5']),
